@@ -55,6 +55,44 @@ CHECKS["C11"] = dict(category="model_checking",
     note="Trusts TLC/Json, the mutex-serialised event log (file order = real-time order), and the 5 s watchdog bound. Concurrent schedules are sampled (seeded delays at hook points), not enumerated; "
          "the exhaustive interleaving argument is carried by CoalesceChan.tla, bound to the code by the same hook points.",
     technique="TLA+ specs (Coalesce, CoalesceChan incl. liveness + mutants) exhaustive TLC; trace validation of sequential runs and linearizability-style validation of concurrent histories (CoalesceLin)")
+SUB_NOTE = ("Trusts TLC/Json, the mutex-serialised event log (file order = real-time order, responses logged at Send entry), and the driver's sentinel-based quiescence "
+            "(two awaited sentinel updates per target through the FIFO queues; no timing assumption, 10 s bound). Schedules are sampled (seeded delays at the hook points "
+            "stream.register/registered, walk.begin/end, send.dequeue, feed.before, next.empty), not enumerated; every interleaving of the critical sections is "
+            "enumerated on the model Subscribe.tla instead. One writer goroutine per target; no path-level origins.")
+CHECKS.update({
+    "C04": dict(category="model_checking",
+        text="Subscribe.tla (implementation-shaped: TreeWrite/Notify, Register, WalkVisit/WalkEnd, Dequeue, Send reading the handle's value at send time) is model-checked exhaustively "
+             "(2 paths, 2 values, <=4 writer operations incl. deletes and re-adds; invariants Converge, NoLostUpdate, SyncAfterSnapshot, Backlog; liveness EventuallySynced/Converged) and three mutant "
+             "configurations (register after walk, sync before walk, queue holds values) must yield counterexamples. Thousands of random scenarios on the real cache+server with writers and subscribers "
+             "racing are recorded and validated by TLC against the property-level SubscribeTrace.tla: valid values, exactly one sync after the snapshot, and view = matching cache content at every quiescent point.",
+        design_ref="5/C04", note=SUB_NOTE,
+        technique="TLA+ model (Subscribe.tla + mutants) exhaustive TLC; trace validation of real cache+subscribe.Server executions (SubscribeTrace.tla)"),
+    "C05": dict(category="model_checking",
+        text="Exhaustive over the stated bound: every subscription path of length <=3 over {a,b,l,x,*} x prefix origin x single target/'*' x ONCE/POLL (with 2 further triggers and client EOF) against "
+             "unchanging caches must return exactly the matching leaves with current values, then one sync per walk, ONCE ending OK; plus random scenarios with concurrent writers (at-least-once / "
+             "held-during-call / nothing that never matched). Verdicts by TLC (SubscribeTrace.tla); the query relation is the one model-checked in CTree.tla.",
+        design_ref="5/C05", note=SUB_NOTE,
+        technique="TLA+ trace validation (SubscribeTrace.tla) of exhaustive pattern enumeration and random ONCE/POLL scenarios on the real server; relation model-checked in CTree/Match"),
+    "C06": dict(category="model_checking",
+        text="Match.tla is model-checked (offers only to registered clients, at most once, removal isolated) and QueryMatch => Agree is checked over all 121x121 path pairs to length 4; the real match.Match "
+             "is driven through the full pair space (exhaustive) and random add/remove/update sequences validated against MatchTrace.tla. At server level, scenarios with overlapping subscription paths are "
+             "validated against SubscribeTrace.tla: per-leaf deliveries incl. duplicates equal the offers between quiescent points, and no offer reaches a subscription's queue after its RPC returned.",
+        design_ref="5/C06", note=SUB_NOTE + " The 'offer' hook is the one internal observation consumed by an acceptance rule (offers after removal are invisible at every API boundary).",
+        technique="TLA+ spec (Match.tla) exhaustive TLC + trace validation (MatchTrace.tla, SubscribeTrace.tla) of real match.Match / subscribe.Server"),
+    "C07": dict(category="model_checking",
+        text="Random ACL tables (2 users x 1-3 targets, occasional authorisation failure) x all modes x single/'*' subscriptions with writers on allowed and denied targets; TLC checks on every response handed to "
+             "Send (data, deletes, metadata, sentinel) that its target is authorised, that denied single-target calls end PermissionDenied/Unauthenticated before anything was sent, and that allowed targets still "
+             "converge / snapshot exactly (SubscribeTrace.tla).",
+        design_ref="5/C07", note=SUB_NOTE,
+        technique="TLA+ trace validation (SubscribeTrace.tla ACL rule on every send) of real subscribe.Server executions with a driver ACL"),
+    "C08": dict(category="model_checking",
+        text="Subscribers are stalled at a driver gate inside Send (from the first send incl. the sync, or later; transiently or permanently) while writers issue bursts and other subscribers stream. TLC checks on "
+             "the recorded events: writers finish while the gate is shut, the others are served during the stall and converge, the stalled queue length stays within distinct offered leaves + deletes, a permanently "
+             "blocked send ends the RPC with an error within 50x the timeout, a merely slow subscriber is not terminated, converges after release and its deliveries incl. duplicates equal the offers. "
+             "Subscribe.tla's Backlog invariant and CoalesceChan.tla back the queue argument.",
+        design_ref="5/C08", note=SUB_NOTE + " Update rates are modelled as burst sizes against a closed gate. With sub-second send timeouts a non-stalled subscriber ending with an error is not a verdict (scheduling noise).",
+        technique="TLA+ trace validation (SubscribeTrace.tla stall/backlog/conservation rules) with gate-controlled stalls on the real server; Subscribe.tla/CoalesceChan.tla model-checked"),
+})
 
 NOT_YET = {
 }
